@@ -6,7 +6,7 @@ EXTENDS MC_HTTPTransport
 GivenCases == ndJsonDeserialize("cases.ndjson")
 CasesInit ==
   /\ \E k \in 1..Len(GivenCases) :
-       /\ cfg = [pa |-> GivenCases[k].pa, ra |-> GivenCases[k].ra, tagged |-> GivenCases[k].tagged, devs |-> Deviations]
+       /\ cfg = [pa |-> GivenCases[k].pa, ra |-> GivenCases[k].ra, tagged |-> GivenCases[k].tagged, tags |-> GivenCases[k].tags, devs |-> Deviations]
        /\ pv = GivenCases[k].pv /\ rv = GivenCases[k].rv
   /\ pc = "encode" /\ wire = <<>> /\ delivered = <<>> /\ invoked = FALSE /\ status = 0 /\ errname = "none"
   /\ rwire = <<>> /\ returned = <<>> /\ cerr = "none"
